@@ -982,6 +982,7 @@ class Compiler:
         old_locals = self.locals
         old_loop_stack = self.loop_stack
         old_try_stack = self.try_stack
+        old_source_map = self.source_map
         old_in_function = self._in_function
         old_free_vars = self._free_vars
         old_cell_vars = self._cell_vars
@@ -996,6 +997,7 @@ class Compiler:
         self.locals = [p.name for p in node.params] + ["arguments"]
         self.loop_stack = []
         self.try_stack = []
+        self.source_map = {}
         self._in_function = True
 
         # Collect all var declarations to know the full locals set
@@ -1031,6 +1033,7 @@ class Compiler:
             num_locals=len(self.locals),
             free_vars=self._free_vars[:],
             cell_vars=self._cell_vars[:],
+            source_map=self.source_map,
         )
 
         # Pop outer scope if we pushed it
@@ -1043,6 +1046,7 @@ class Compiler:
         self.locals = old_locals
         self.loop_stack = old_loop_stack
         self.try_stack = old_try_stack
+        self.source_map = old_source_map
         self._in_function = old_in_function
         self._free_vars = old_free_vars
         self._cell_vars = old_cell_vars
@@ -1070,6 +1074,7 @@ class Compiler:
         old_locals = self.locals
         old_loop_stack = self.loop_stack
         old_try_stack = self.try_stack
+        old_source_map = self.source_map
         old_in_function = self._in_function
         old_free_vars = self._free_vars
         old_cell_vars = self._cell_vars
@@ -1091,6 +1096,7 @@ class Compiler:
 
         self.loop_stack = []
         self.try_stack = []
+        self.source_map = {}
         self._in_function = True
 
         # Collect all var declarations to know the full locals set
@@ -1132,6 +1138,7 @@ class Compiler:
             num_locals=len(self.locals),
             free_vars=self._free_vars[:],
             cell_vars=self._cell_vars[:],
+            source_map=self.source_map,
         )
 
         # Pop outer scope if we pushed it
@@ -1144,6 +1151,7 @@ class Compiler:
         self.locals = old_locals
         self.loop_stack = old_loop_stack
         self.try_stack = old_try_stack
+        self.source_map = old_source_map
         self._in_function = old_in_function
         self._free_vars = old_free_vars
         self._cell_vars = old_cell_vars
